@@ -71,6 +71,10 @@ CandsOf(s) ==
         rmtri == UNION {{<<ip, jp, up>> : jp \in Sec(s, "jol", ip), up \in Sec(s, "udf", ip)} : ip \in Known(s.iso)}
                \cup {<<NoPath, jp, NoPath>> : jp \in Known(s.jol)}
                \cup {<<NoPath, NoPath, up>> : up \in Known(s.udf)}
+               \* the root of a namespace, alone and next to a removable directory of another one
+               \cup {<<Root, NoPath, NoPath>>}
+               \cup UNION {(IF HasNs(s, "jol") THEN {<<ip, Root, NoPath>>} ELSE {})
+                            \cup (IF HasNs(s, "udf") THEN {<<ip, NoPath, Root>>} ELSE {}) : ip \in DOMAIN s.iso}
         nss == {ns \in {"iso", "jol", "udf"} : HasNs(s, ns)}
     IN  {[a |-> "AddFp", blob |-> b, iso |-> t[1], jol |-> t[2], udf |-> t[3]] : b \in UseBlobs, t \in tri}
    \cup {[a |-> "AddDir", iso |-> t[1], jol |-> t[2], udf |-> t[3]] : t \in tri}
